@@ -96,7 +96,9 @@ def build_pair(E, diffs):
         else:
             outs = outs + [G.mk_output(ctx, "stderr", "l")]
         c2["outputs"] = outs
-    if diffs["attachments"]:
+    if diffs["attachments"] == 3:
+        m2.pop("attachments", None)          # the cell loses its attachments key altogether
+    elif diffs["attachments"]:
         m2["attachments"] = ({"pic.png": {"image/png": G.B64[1]}} if diffs["attachments"] == 1
                              else {"pic.png": {"image/png": G.B64[0]}, "new.png": {"image/png": G.B64[1]}})
     if diffs["metadata"] == 1:
@@ -133,7 +135,7 @@ def build_pair(E, diffs):
     return G.finalize(A), G.finalize(B)
 
 
-NVAR = {"sources": 3, "outputs": 3, "attachments": 3, "metadata": 5, "id": 3, "details": 3}
+NVAR = {"sources": 3, "outputs": 3, "attachments": 4, "metadata": 5, "id": 3, "details": 3}
 
 
 def make_ignore(mode, lo, hi, full=False, props=("C14",), known=()):
@@ -143,7 +145,7 @@ def make_ignore(mode, lo, hi, full=False, props=("C14",), known=()):
         ignored = [c for i, c in enumerate(CATEGORIES) if mask >> i & 1]
         diffs = {}
         for c in CATEGORIES:
-            if full or c in ("metadata", "details"):
+            if full or c in ("metadata", "details", "attachments"):
                 diffs[c] = E.choice("d_" + c, NVAR[c])
             else:
                 on = E.choice("d_" + c, 2)
